@@ -189,6 +189,10 @@ def run_case(spec):
         add("power2", lambda: n1**2, lambda m: m[0] @ m[0], 2 * d1)
         if 3 * d2 <= 7:
             add("power3", lambda: n2**3, lambda m: m[1] @ m[1] @ m[1], 3 * d2)
+        if 6 * d2 <= 7:
+            # higher integer powers of a compound expression (N**5, (N + c)**6, (a + f(N))**5 ...)
+            add("power5", lambda: n2**5, lambda m: np.linalg.matrix_power(m[1], 5), 5 * d2)
+            add("power6", lambda: n2**6, lambda m: np.linalg.matrix_power(m[1], 6), 6 * d2)
         add("as_expr_roundtrip", lambda: NOF.from_expr(n1.as_expr(), ops), lambda m: m[0], d1)
         add("mixed_with_expr", lambda: n1 * e2, lambda m: m[0] @ m[1], d1 + d2)
         # right operand a plain expression that SymPy regards as a commuting scalar although it depends on a number
